@@ -752,9 +752,9 @@ fn reconstruct_family(ctx: &Ctx, report: &mut Report) -> Result<(), String> {
 // (C) relay sessions: message sequences from two peers through the real Relayer::received
 
 /// A protocol context that records what the handlers send and whom they ban.
-struct MockNc {
-    sent: std::sync::Mutex<Vec<(ckb_network::PeerIndex, Bytes)>>,
-    banned: std::sync::Mutex<Vec<(ckb_network::PeerIndex, String)>>,
+pub(crate) struct MockNc {
+    pub(crate) sent: std::sync::Mutex<Vec<(ckb_network::PeerIndex, Bytes)>>,
+    pub(crate) banned: std::sync::Mutex<Vec<(ckb_network::PeerIndex, String)>>,
 }
 
 type Task = std::pin::Pin<Box<dyn std::future::Future<Output = ()> + 'static + Send>>;
